@@ -862,6 +862,9 @@ def remap_by_types(
             t_node = self.generic_visit(node)
             assert isinstance(t_node, ast.UnaryOp)
             t_operand = bool if isinstance(node.op, ast.Not) else self.lookup_type(t_node.operand)
+            if t_operand == bool and not isinstance(node.op, ast.Not):
+                # -True is an int
+                t_operand = int
             self._found_types[node] = t_operand
             self._found_types[t_node] = t_operand
             return t_node
